@@ -321,3 +321,408 @@ Example C10_nonvacuous_step_domain : numeric_or_void [Some (B "2"); None; Some [
 Proof.
   intros v [H|[H|[H|[]]]]; [injection H as <-; right; eexists; vm_compute; reflexivity|discriminate H|injection H as <-; left; reflexivity].
 Qed.
+
+(* ================================================================== round 2: every verb's cell sees exactly its group's values *)
+(* (imports for the sections below) *)
+From Miller Require Import C10.ProofsCells C10.ProofsCells2 C10.ProofsSum C10.ProofsMoments C10.ProofsWindow.
+
+(* the sum of ints is an int EXACTLY when every partial sum (arrival order) fits int64 -- the code adds with the
+   auto-overflowing `+`: one overflow turns the running sum into a float for good; its exact value is still the sum *)
+Theorem C10_int_sum_stays_int_iff_partial_sums_fit :
+  forall vs, all_int (numerics vs) = true ->
+    (partials_fit 0 (ints_of (numerics vs)) = true -> run_acc false ASum vs = OInt (Zsum_list (ints_of (numerics vs))))
+    /\ (partials_fit 0 (ints_of (numerics vs)) = false ->
+        exists q, run_acc false ASum vs = OFlt q /\ (q == inject_Z (Zsum_list (ints_of (numerics vs))))%Q).
+Proof. exact int_sum_stays_int_iff. Qed.
+Print Assumptions C10_int_sum_stays_int_iff_partial_sums_fit.
+
+(* ---- fraction: the verb (both passes, every output record) IS the definitional recomputation: record r arriving after
+   [pre] gets, per value field it carries, value / (sum over ALL members of its group carrying the field), with -c the
+   numerator is the running sum over the members seen so far *)
+Theorem C10_fraction_sum_cell_is_group_sum :
+  forall fs gs rs k f, NoDup fs -> In f fs ->
+    gcell (fold_left (frac_pass1 fs gs) rs []) k f = frac_cell_sum (numerics (values_of f (members (group_key gs) k rs))).
+Proof. exact fraction_sum_cell. Qed.
+Print Assumptions C10_fraction_sum_cell_is_group_sum.
+
+Theorem C10_fraction_equals_definition :
+  forall fs gs pct cumu rs, NoDup fs -> verb_fraction fs gs pct cumu rs = spec_fraction_from fs gs pct cumu rs [] rs.
+Proof. exact fraction_equals_definition. Qed.
+Print Assumptions C10_fraction_equals_definition.
+
+(* ---- histogram: the counts of value field f are the bin counts of exactly the numeric values of f *)
+Theorem C10_histogram_cell_counts_the_fields_values :
+  forall lo hi nbins fs rs f, NoDup fs -> In f fs ->
+    oget f (hist_counts lo hi nbins fs rs)
+    = Some (fold_left (hist_step lo hi nbins) (qs_of (values_of f rs)) (repeat 0%Z (Z.to_nat nbins))).
+Proof. exact histogram_cell. Qed.
+Print Assumptions C10_histogram_cell_counts_the_fields_values.
+
+(* ---- count-similar: records grouped at the end, groups in first-appearance order, each with its group's size *)
+Theorem C10_count_similar_equals_definition :
+  forall gs out rs,
+    verb_count_similar gs out rs
+    = flat_map (fun k => map (fun r => oput out (OInt (Z.of_nat (List.length (members (group_key gs) k rs)))) (otext_rec r))
+                             (members (group_key gs) k rs))
+               (first_keys (group_key gs) rs).
+Proof. exact count_similar_equals_definition. Qed.
+Print Assumptions C10_count_similar_equals_definition.
+
+Theorem C10_count_similar_emits_every_contributing_record :
+  forall gs out rs, List.length (verb_count_similar gs out rs) = List.length (filter (has_key (group_key gs)) rs).
+Proof. exact count_similar_emits_every_contributing_record. Qed.
+Print Assumptions C10_count_similar_emits_every_contributing_record.
+
+(* ---- count / uniq -g [-c|-n] / count-distinct -f [-n] / most-frequent share one state: per group (first-appearance
+   order) the group-by texts of its first member and the number of its members *)
+Theorem C10_count_groups_entries :
+  forall gs rs,
+    count_groups gs rs
+    = map (fun k => (k, (first_sel gs (members (group_key gs) k rs), Z.of_nat (List.length (members (group_key gs) k rs)))))
+          (first_keys (group_key gs) rs).
+Proof. exact count_groups_entries. Qed.
+Print Assumptions C10_count_groups_entries.
+
+Theorem C10_uniq_equals_definition :
+  forall gs show_counts only_n out rs,
+    verb_uniq gs show_counts only_n out rs
+    = if only_n then [[(B "count", OInt (Z.of_nat (List.length (first_keys (group_key gs) rs))))]]
+      else map (fun k => put_all (group_fields gs (first_sel gs (members (group_key gs) k rs))
+                                  ++ (if show_counts then [(out, OInt (Z.of_nat (List.length (members (group_key gs) k rs))))] else [])) [])
+               (first_keys (group_key gs) rs).
+Proof. exact uniq_equals_definition. Qed.
+Print Assumptions C10_uniq_equals_definition.
+
+(* count-distinct -u: per listed field the counts by value of exactly that field's values (counts map:
+   C10_counts_by_value_equal_occurrences) *)
+Theorem C10_count_distinct_u_cell :
+  forall fs f rs, NoDup fs -> In f fs ->
+    dfl_cm (oget f (fold_left (unlashed_step fs) rs [])) = fold_left (fun cm v => cm_incr v cm) (values_of f rs) [].
+Proof. exact count_distinct_u_cell. Qed.
+Print Assumptions C10_count_distinct_u_cell.
+
+(* ---- top: per (group, value field) the best n of exactly the group's values of that field; the contributing records
+   are those carrying every group-by and every value field *)
+Theorem C10_top_equals_model_over_named_groups :
+  forall n domax out fs gs rs,
+    verb_top n domax out fs gs rs
+    = flat_map (fun e : bytes * (list bytes * omap (list val)) =>
+                map (fun i =>
+                       fold_left (fun o fl => oput ((fst fl) ++ B "_top")%list
+                                                   (match nth_error (snd fl) i with Some v => oval_of_val v | None => OText [] end)
+                                                   (oput out (OInt (Z.of_nat i + 1)) o))
+                                 (snd (snd e)) (put_all (group_fields gs (fst (snd e))) []))
+                    (seq 0 n)) (top_groups n domax fs gs rs).
+Proof. exact verb_top_groups. Qed.
+Print Assumptions C10_top_equals_model_over_named_groups.
+
+Theorem C10_top_cell_is_best_n_of_group_values :
+  forall n domax fs gs rs k f, NoDup fs -> In f fs ->
+    match oget k (top_groups n domax fs gs rs) with Some s => oget f (snd s) | None => None end
+    = match values_of f (members (top_key fs gs) k rs) with
+      | [] => None
+      | vs => Some (firstn n (top_sorted domax vs))
+      end.
+Proof. exact top_cell. Qed.
+Print Assumptions C10_top_cell_is_best_n_of_group_values.
+
+Theorem C10_top_sorted_is_a_permutation : forall domax vs, Permutation (top_sorted domax vs) vs.
+Proof. exact top_sorted_perm. Qed.
+Print Assumptions C10_top_sorted_is_a_permutation.
+
+(* ---- most-frequent / least-frequent: the (group, size) entries sorted by size (descending for most-frequent), groups
+   of equal size in first-appearance order (the model's order: Go's sort.Slice is an insertion sort up to 12 elements;
+   beyond 12 the check verifies the sortedness relation on the output instead), then the first maxn *)
+Theorem C10_frequent_is_sorted_stable_permutation :
+  forall descending maxn show_counts out gs rs,
+    verb_frequent descending maxn show_counts out gs rs
+    = map (fun e => put_all (group_fields gs (fst (snd e)) ++ (if show_counts then [(out, OInt (snd (snd e)))] else [])) [])
+          (firstn maxn (freq_sorted descending gs rs))
+    /\ sortedk (freq_key descending) (freq_sorted descending gs rs)
+    /\ Permutation (freq_sorted descending gs rs) (count_groups gs rs)
+    /\ forall c, filter (has_key_c (freq_key descending) c) (freq_sorted descending gs rs)
+                 = filter (has_key_c (freq_key descending) c) (count_groups gs rs).
+Proof. exact (fun d m s o gs rs => conj (verb_frequent_unfold d m s o gs rs) (frequent_order d gs rs)). Qed.
+Print Assumptions C10_frequent_is_sorted_stable_permutation.
+
+Example C10_nonvacuous_cells :
+  NoDup [B "x"; B "y"] /\ In (B "y") [B "x"; B "y"]
+  /\ (let rs := [[(B "a", B "p"); (B "x", B "1")]; [(B "x", B "7")]; [(B "a", B "q"); (B "x", B "5"); (B "y", B "2")]; [(B "a", B "p"); (B "x", B "3"); (B "y", B "6")]] in
+      verb_fraction [B "x"; B "y"] [B "a"] false true rs = spec_fraction_from [B "x"; B "y"] [B "a"] false true rs [] rs
+      /\ nth 3 (verb_fraction [B "x"; B "y"] [B "a"] false true rs) []
+         = [(B "a", OText (B "p")); (B "x", OText (B "3")); (B "y", OText (B "6")); (B "x_cumulative_fraction", OInt 1); (B "y_cumulative_fraction", OInt 1)]
+      /\ values_of (B "x") (members (group_key [B "a"]) (B "p") rs) = [B "1"; B "3"]
+      /\ firstn 1 (top_sorted true [B "1"; B "3"]) = [B "3"]
+      /\ map (fun e => fst e) (freq_sorted true [B "a"] rs) = [B "p"; B "q"]).
+Proof. vm_compute. repeat split; try reflexivity; repeat constructor; cbn; intuition discriminate. Qed.
+
+(* ================================================================== higher moments, lengths, mad *)
+(* skewness = (sum (x-mean)^3 / n) / (sum (x-mean)^2 / (n-1))^(3/2): the 3/2 power is irrational, the theorem is on the
+   rational numerator and denominator the model hands to pow (the correspondence compares the float) *)
+Theorem C10_skewness_equals_definition :
+  forall vs,
+    let xs := qs_of vs in let fn := inject_Z (Z.of_nat (List.length xs)) in
+    ((List.length xs < 2)%nat -> run_acc false ASkewness vs = OVoid)
+    /\ ((2 <= List.length xs)%nat -> (central 2 xs == 0)%Q -> run_acc false ASkewness vs = ONan)
+    /\ ((2 <= List.length xs)%nat -> ~ (central 2 xs == 0)%Q ->
+        exists nu de, run_acc false ASkewness vs = OPow15 nu de
+          /\ (nu == central 3 xs / fn)%Q /\ (de == central 2 xs / (fn - 1))%Q /\ (0 < de)%Q).
+Proof. exact skewness_stream_eq_def. Qed.
+Print Assumptions C10_skewness_equals_definition.
+
+Theorem C10_kurtosis_equals_definition :
+  forall vs,
+    let xs := qs_of vs in let fn := inject_Z (Z.of_nat (List.length xs)) in
+    ((List.length xs < 2)%nat -> run_acc false AKurtosis vs = OVoid)
+    /\ ((2 <= List.length xs)%nat -> (central 2 xs == 0)%Q -> run_acc false AKurtosis vs = ONan)
+    /\ ((2 <= List.length xs)%nat -> ~ (central 2 xs == 0)%Q ->
+        exists q, run_acc false AKurtosis vs = OFlt q
+          /\ (q == (central 4 xs / fn) / ((central 2 xs / fn) * (central 2 xs / fn)) - 3)%Q).
+Proof. exact kurtosis_stream_eq_def. Qed.
+Print Assumptions C10_kurtosis_equals_definition.
+
+Theorem C10_mad_equals_definition :
+  forall vs, qs_of vs <> [] ->
+    let xs := qs_of vs in
+    exists q, run_acc false AMad vs = OFlt q
+      /\ (q == Qsum_list (map (fun x => Qabs (mean_def xs - x)) xs) / inject_Z (Z.of_nat (List.length xs)))%Q.
+Proof. exact mad_equals_definition. Qed.
+Print Assumptions C10_mad_equals_definition.
+
+Theorem C10_count_and_null_count :
+  forall vs, run_acc false ACount vs = OInt (Z.of_nat (List.length vs))
+          /\ run_acc false ANullCount vs = OInt (Z.of_nat (List.length (filter is_void vs))).
+Proof. exact (fun vs => conj (count_is_number_of_values vs) (null_count_is_number_of_empty_values vs)). Qed.
+Print Assumptions C10_count_and_null_count.
+
+(* minlen / maxlen: the extreme number of UTF-8 characters (C15's strlen on well-formed UTF-8) *)
+Theorem C10_minlen_maxlen_are_extreme_character_counts :
+  forall vs, vs <> [] -> forallb C15.Model.valid_utf8 vs = true ->
+    (exists z, run_acc false AMinLen vs = OInt z /\ In z (map C15.Model.strlen vs) /\ (forall v, In v vs -> (z <= C15.Model.strlen v)%Z))
+    /\ (exists z, run_acc false AMaxLen vs = OInt z /\ In z (map C15.Model.strlen vs) /\ (forall v, In v vs -> (C15.Model.strlen v <= z)%Z)).
+Proof. exact (fun vs Hne Hv => conj (minlen_is_min_rune_count vs Hne Hv) (maxlen_is_max_rune_count vs Hne Hv)). Qed.
+Print Assumptions C10_minlen_maxlen_are_extreme_character_counts.
+
+(* ================================================================== ewma, sliding windows, interpolation value *)
+(* the recurrence next = alpha*x + (1-alpha)*prev equals the closed form (1-alpha)^n x0 + sum_k alpha (1-alpha)^k x_(n-k) *)
+Theorem C10_ewma_recurrence_equals_closed_form :
+  forall al x0 xs,
+    (ewma_rec al x0 xs
+     == qpow (1 - al) (List.length xs) * x0
+        + Qsum_list (map (fun k => al * qpow (1 - al) k * nth k (rev xs) 0) (seq 0 (List.length xs))))%Q.
+Proof. exact ewma_closed_explicit. Qed.
+Print Assumptions C10_ewma_recurrence_equals_closed_form.
+
+(* step -a ewma -d alphas [-o suffixes]: for every alpha the value written for a numeric value is the recurrence over
+   exactly the numeric values of the cell so far (records lacking the field and non-numeric texts are skipped) *)
+Theorem C10_step_ewma_value :
+  forall alphas name f pre v x al sfx,
+    NoDup (map snd alphas) -> In (al, sfx) alphas -> numof v = Some x ->
+    ewma_cell alphas name f sfx (stst0 (SEwma alphas)) (pre ++ [Some v])
+    = ewma_cell alphas name f sfx (stst0 (SEwma alphas)) pre
+      ++ [Some (match ewma_inputs pre with
+                | [] => oval_of_val v
+                | x0 :: rest => OFlt (ewma_rec al (qof x0) (map qof rest ++ [qof x]))
+                end)].
+Proof. exact ewma_stepper_value. Qed.
+Print Assumptions C10_step_ewma_value.
+
+(* stats1 -w n: the window kept for a group holds exactly its last n contributing records (eviction invariant), and every
+   accumulator printed with a record has been fed exactly the window's values of its field *)
+Theorem C10_stats1_window_holds_last_n_of_group :
+  forall interp accs fs gs n rs k,
+    w_win_of (oget k (w_run interp accs fs gs n rs))
+    = last_n (wn n) (map (window_entry fs) (members (group_key gs) k rs))
+    /\ (oget k (w_run interp accs fs gs n rs) = None <-> members (group_key gs) k rs = []).
+Proof. exact stats1w_window_invariant. Qed.
+Print Assumptions C10_stats1_window_holds_last_n_of_group.
+
+Theorem C10_stats1_window_cell_is_accumulator_over_window :
+  forall interp accs fs gs n rs r k f a,
+    NoDup fs -> NoDup (map req_text accs) -> In f fs -> In a accs -> group_key gs r = Some k ->
+    let l2' := w_l2_of (oget k (w_run interp accs fs gs n (rs ++ [r]))) in
+    let vs := values_of f (last_n (wn n) (members (group_key gs) k (rs ++ [r]))) in
+    dflt (match oget f l2' with Some l3 => oget (req_text a) l3 | None => None end) = fold_left (feed (fst a)) vs st0
+    /\ (vs <> [] -> exists l3, oget f l2' = Some l3 /\ oget (req_text a) l3 = Some (fold_left (feed (fst a)) vs st0)).
+Proof. exact stats1w_cell_is_window_run. Qed.
+Print Assumptions C10_stats1_window_cell_is_accumulator_over_window.
+
+Theorem C10_stats1_window_emits_the_window_statistics :
+  forall interp accs fs gs n rs r k, group_key gs r = Some k ->
+    exists gv,
+      oget k (w_run interp accs fs gs n (rs ++ [r]))
+      = Some (gv, w_win_of (oget k (w_run interp accs fs gs n (rs ++ [r]))), w_l2_of (oget k (w_run interp accs fs gs n (rs ++ [r]))))
+      /\ verb_stats1_w interp accs fs gs n (rs ++ [r])
+         = verb_stats1_w interp accs fs gs n rs
+           ++ [put_all (group_fields gs gv ++ emit_l2 interp accs (w_l2_of (oget k (w_run interp accs fs gs n (rs ++ [r]))))) (otext_rec r)].
+Proof. exact stats1w_emitted. Qed.
+Print Assumptions C10_stats1_window_emits_the_window_statistics.
+
+(* interpolated percentile: the VALUE for 0 <= p <= 100 on numeric data: x_i + (f - i)(x_(i+1) - x_i) with
+   f = p/100 (n-1), i = floor f, between the two neighbours; the last element at the top *)
+Theorem C10_interpolated_percentile_value :
+  forall p sorted, (0 <= p)%Q -> (p <= 100)%Q -> sorted <> [] -> all_numeric sorted ->
+    pctl_interp p sorted
+    = if (Z.of_nat (List.length sorted) - 1 <=? pidx p sorted)%Z then oval_of_val (last sorted [])
+      else OFlt (xq sorted (pidx p sorted)
+                 + (pf p sorted - inject_Z (pidx p sorted)) * (xq sorted (pidx p sorted + 1) - xq sorted (pidx p sorted))).
+Proof. exact pctl_interp_value. Qed.
+Print Assumptions C10_interpolated_percentile_value.
+
+Theorem C10_interpolated_percentile_between_neighbours :
+  forall p sorted, (0 <= p)%Q -> (p <= 100)%Q -> sorted <> [] -> all_numeric sorted ->
+    Sorted.LocallySorted val_le sorted -> (pidx p sorted < Z.of_nat (List.length sorted) - 1)%Z ->
+    let value := (xq sorted (pidx p sorted)
+                 + (pf p sorted - inject_Z (pidx p sorted)) * (xq sorted (pidx p sorted + 1) - xq sorted (pidx p sorted)))%Q in
+    pctl_interp p sorted = OFlt value /\ (xq sorted (pidx p sorted) <= value)%Q /\ (value <= xq sorted (pidx p sorted + 1))%Q.
+Proof. exact pctl_interp_bracket. Qed.
+Print Assumptions C10_interpolated_percentile_between_neighbours.
+
+(* step: the window kept for a group holds exactly the group's records centre .. centre+lead that exist, and
+   shift_lead_n writes into the centre the field of the record n places ahead (empty when there is none) *)
+Theorem C10_step_window_holds_the_groups_records :
+  forall sps fs gs lead rs k,
+    match oget k (s_run sps fs gs lead rs) with
+    | Some g => wkeys (sg_win g) = last_n (S lead) (padded lead (members (group_key gs) k rs))
+                /\ members (group_key gs) k rs <> []
+    | None => members (group_key gs) k rs = []
+    end.
+Proof. exact step_window_invariant. Qed.
+Print Assumptions C10_step_window_holds_the_groups_records.
+
+Theorem C10_step_shift_lead_reads_n_ahead :
+  forall lead n name f st c t (ms : list record),
+    wkeys (Some c :: t) = last_n (S lead) (padded lead ms) ->
+    exists c', snd (sprocess (SShiftLead n) name f st (Some c :: t)) = Some c' :: t /\ fst c' = fst c
+      /\ Some (fst c) = (if (S lead <=? List.length ms + 0)%nat then nth_error ms (List.length ms + 0 - S lead) else None)
+      /\ match (if (S lead <=? List.length ms + n)%nat then nth_error ms (List.length ms + n - S lead) else None) with
+         | None => oget (out_name f name) (snd c') = Some (OText [])
+         | Some r' => match get f r' with
+                      | Some v => oget (out_name f name) (snd c') = Some (OText v)
+                      | None => c' = c
+                      end
+         end.
+Proof. exact shift_lead_reads_ahead. Qed.
+Print Assumptions C10_step_shift_lead_reads_n_ahead.
+
+(* ================================================================== merge-fields, fill-down *)
+From Miller Require Import C10.ProofsMerge.
+
+(* merge-fields -r: per record, every requested accumulator is run over exactly the non-empty values of the fields whose
+   name contains one of the substrings, in record order; those fields are removed unless -k *)
+Theorem C10_merge_fields_r_equals_definition :
+  forall interp keep accs subs base r,
+    verb_merge_fields_one interp keep accs (MFSubs subs) base r
+    = fold_left (fun o e => oput (base ++ "_" :: fst e)%list (run_acc interp (fst (snd e)) (mf_subs_values subs r)) o)
+                (mf_accs accs) (mf_subs_rest keep subs r).
+Proof. exact merge_fields_subs. Qed.
+Print Assumptions C10_merge_fields_r_equals_definition.
+
+(* merge-fields -f: the non-empty values of the listed fields present in the record, in the order of -f (a name listed
+   twice without -k is gone the second time: the statement needs NoDup then, see merge_fields_names_dup_refuted) *)
+Theorem C10_merge_fields_f_equals_definition :
+  forall interp keep accs fs base r, keep = true \/ NoDup fs ->
+    verb_merge_fields_one interp keep accs (MFNames fs) base r
+    = fold_left (fun o e => oput (base ++ "_" :: fst e)%list (run_acc interp (fst (snd e)) (mf_names_values fs r)) o)
+                (mf_accs accs) (mf_names_rest keep fs r).
+Proof. exact merge_fields_names. Qed.
+Print Assumptions C10_merge_fields_f_equals_definition.
+
+(* merge-fields -c: the fields are partitioned by their short name (field name minus the first matching substring), short
+   names in first-appearance order, each short name's accumulators run over exactly its fields' non-empty values *)
+Theorem C10_merge_fields_c_equals_definition :
+  forall interp keep accs subs base r,
+    verb_merge_fields_one interp keep accs (MFCollapse subs) base r
+    = fold_left (fun o sh => fold_left (fun o e => oput (sh ++ "_" :: fst e)%list (run_acc interp (fst (snd e)) (mf_collapse_values subs sh r)) o)
+                                       (mf_accs accs) o)
+                (first_keys (mf_ckey subs) r) (mf_subs_rest keep subs r).
+Proof. exact merge_fields_collapse. Qed.
+Print Assumptions C10_merge_fields_c_equals_definition.
+
+(* fill-down -f [-a | --only-if-blank]: the i-th output is the i-th input with every listed field that is not present
+   (absent; or, without -a, empty) set to its value in the LAST earlier record where it was present, if any *)
+Theorem C10_fill_down_equals_definition :
+  forall oia fs rs, NoDup fs -> verb_fill_down false oia fs rs = spec_fill_down_from oia fs [] rs.
+Proof. exact fill_down_equals_definition. Qed.
+Print Assumptions C10_fill_down_equals_definition.
+
+Theorem C10_fill_down_all_equals_definition :
+  forall oia fs rs, forallb wf_record rs = true -> verb_fill_down true oia fs rs = spec_fill_all_from oia [] rs.
+Proof. exact fill_down_all_equals_definition. Qed.
+Print Assumptions C10_fill_down_all_equals_definition.
+
+Example C10_nonvacuous_merge_fill :
+  NoDup [B "x"; B "y"]
+  /\ forallb wf_record [[(B "x", B "1"); (B "y", B "")]; [(B "y", B "2")]] = true
+  /\ verb_fill_down false false [B "x"; B "y"] [[(B "x", B "1"); (B "y", B "")]; [(B "y", B "2")]; [(B "x", B ""); (B "z", B "3")]]
+     = [[(B "x", OText (B "1")); (B "y", OText [])]; [(B "y", OText (B "2")); (B "x", OText (B "1"))];
+        [(B "x", OText (B "1")); (B "z", OText (B "3")); (B "y", OText (B "2"))]]
+  /\ mf_subs_values [B "in_"] [(B "a_in_x", B "3"); (B "k", B "9"); (B "b_in_y", B ""); (B "c_in_z", B "4")] = [B "3"; B "4"].
+Proof. vm_compute. repeat split; try reflexivity; repeat constructor; cbn; intuition discriminate. Qed.
+
+(* ================================================================== step: the verb's own per-(group, field, stepper) state *)
+From Miller Require Import C10.ProofsStepCell.
+(* backward-looking steppers (window of one record): the state kept inside verb_step for (group k, value field f,
+   stepper `name`) is the per-cell run (the step_state / step_cell of the C10_step_* theorems above) over exactly the
+   events of f over the group's records, starting at the first record that carries f; other groups' records, other
+   fields and other steppers do not touch it *)
+Theorem C10_step_cell_sees_exactly_its_groups_events :
+  forall sps fs gs f sp name rs k,
+    NoDup fs -> In f fs -> NoDup (map snd sps) -> In (sp, name) sps ->
+    match oget k (s_run sps fs gs 0 rs) with Some g => cellst g f name | None => None end
+    = match drop_absent (map (get f) (members (group_key gs) k rs)) with
+      | [] => None
+      | evs => Some (step_state sp name f (stst0 sp) evs)
+      end.
+Proof. exact step_cell_state_is_step_state. Qed.
+Print Assumptions C10_step_cell_sees_exactly_its_groups_events.
+
+(* ================================================================== DSL statistics functions (pkg/bifs/stats.go) *)
+From Miller Require Import C10.ModelDsl C10.ProofsDsl.
+(* the DSL function applied to the collection of a group's values IS the stats1 accumulator over the group's records
+   (ModelDsl.dsl_stat transliterates the BIFs; run_acc is the accumulator the verbs use).  Unconditional for the counting
+   / order functions; for the moment functions on all-numeric collections (the BIFs count empty values in n and turn a
+   string into an error, the verb skips empties before feeding: dsl_mean_counts_voids, dsl_sum_string_is_error) *)
+Theorem C10_dsl_counting_functions_are_the_accumulators :
+  forall xs, dsl_stat DCount xs = run_acc false ACount xs
+          /\ dsl_stat DNullCount xs = run_acc false ANullCount xs
+          /\ dsl_stat DDistinctCount xs = run_acc false ADistinctCount xs
+          /\ dsl_stat DMode xs = run_acc false AMode xs
+          /\ dsl_stat DAntimode xs = run_acc false AAntimode xs
+          /\ dsl_stat DMinLen xs = run_acc false AMinLen xs
+          /\ dsl_stat DMaxLen xs = run_acc false AMaxLen xs.
+Proof.
+  exact (fun xs => conj (dsl_count_is_accumulator xs) (conj (dsl_null_count_is_accumulator xs) (conj (dsl_distinct_count_is_accumulator xs)
+          (conj (dsl_mode_is_accumulator xs) (conj (dsl_antimode_is_accumulator xs) (conj (dsl_minlen_is_accumulator xs) (dsl_maxlen_is_accumulator xs))))))).
+Qed.
+Print Assumptions C10_dsl_counting_functions_are_the_accumulators.
+
+Theorem C10_dsl_percentile_functions_are_the_accumulators :
+  forall il p xs, dsl_stat (DPercentile il p) xs = run_acc il (APctl p) xs /\ dsl_stat (DMedian il) xs = run_acc il (APctl 50) xs.
+Proof. exact (fun il p xs => conj (dsl_percentile_is_accumulator il p xs) (dsl_median_is_accumulator il xs)). Qed.
+Print Assumptions C10_dsl_percentile_functions_are_the_accumulators.
+
+Theorem C10_dsl_moment_functions_are_the_accumulators :
+  forall xs, (no_strings xs = true -> dsl_stat DSum xs = run_acc false ASum xs)
+          /\ (all_num xs = true ->
+              dsl_stat DMean xs = run_acc false AMean xs /\ dsl_stat DVariance xs = run_acc false AVar xs
+              /\ dsl_stat DStddev xs = run_acc false AStddev xs /\ dsl_stat DMeanEB xs = run_acc false AMeanEB xs
+              /\ dsl_stat DSkewness xs = run_acc false ASkewness xs).
+Proof.
+  exact (fun xs => conj (dsl_sum_is_accumulator xs)
+          (fun H => conj (dsl_mean_is_accumulator xs H) (conj (dsl_variance_is_accumulator xs H) (conj (dsl_stddev_is_accumulator xs H)
+                    (conj (dsl_meaneb_is_accumulator xs H) (dsl_skewness_is_accumulator xs H)))))).
+Qed.
+Print Assumptions C10_dsl_moment_functions_are_the_accumulators.
+
+(* sum, sum2, sum3, sum4 = the power sums of the numeric elements, exactly over Q *)
+Theorem C10_dsl_power_sums_equal_definition :
+  forall k xs, (1 <= k <= 4)%nat -> no_strings xs = true ->
+    exists r, dsl_sumk k xs = SNum r /\ (qof r == pow_sum k (qs_of xs))%Q.
+Proof. exact dsl_sumk_is_pow_sum. Qed.
+Print Assumptions C10_dsl_power_sums_equal_definition.
+
+Example C10_nonvacuous_dsl :
+  all_num [B "4"; B "5"; B "9.5"] = true /\ no_strings [B "4"; B ""; B "9.5"] = true
+  /\ dsl_stat DMean [B "4"; B "5"; B "9"] = OInt 6 /\ dsl_stat DCount [B "4"; B ""; B "x"] = OInt 3.
+Proof. vm_compute. repeat split; reflexivity. Qed.
